@@ -101,6 +101,18 @@ func (g gh[I, O]) Compile(ctx context.Context, opts ...compose.GraphCompileOptio
 			}
 			return drainOut(sr)
 		}
+		if ci, ok := input.(CollectIn); ok {
+			// the input as a stream of one chunk, the output as a value: through Runnable.Collect
+			var in I
+			if ci.Val != nil {
+				in = ci.Val.(I)
+			}
+			out, err := r.Collect(ctx, schema.StreamReaderFromArray([]I{in}))
+			if err != nil {
+				return nil, err
+			}
+			return out, nil
+		}
 		var in I
 		if input != nil {
 			in = input.(I)
@@ -129,6 +141,9 @@ func (g gh[I, O]) anyGraph() compose.AnyGraph { return g.Graph }
 func MkGraph[I, O any](opts ...compose.NewGraphOption) GraphH {
 	return gh[I, O]{compose.NewGraph[I, O](opts...)}
 }
+
+// CollectIn as the input of an Invoker: the value is sent as a one-chunk stream through Runnable.Collect
+type CollectIn struct{ Val any }
 
 // Multi is what emit returns when a stream-producing lambda (kind 1 or 3) is to send several chunks
 // (of possibly different dynamic types) instead of one
